@@ -24,7 +24,47 @@ def checker(ctx) -> ptcheck.Checker:
                            want_samples=False, want_windows=True)
 
 
-GEN = {'measure_p': 0.75, 'drop_p': 0.45, 'zero_p': 0.12}
+# (the last four: shapes beyond the default stream, see notes/C02.md "Seeded changes")
+GEN = {'measure_p': 0.75, 'drop_p': 0.45, 'zero_p': 0.12,
+       'nest_wrap_p': 0.3, 'int_chan_p': 0.1, 'plain_t_p': 0.1, 'reuse_p': 0.25}
+
+
+def reuse_case(rng: random.Random):
+    """Several renamed copies of one measured pulse built the way user code does it in a loop: ONE caller-owned
+    measurement / parameter / channel mapping dict is updated and handed to MappingPT for every copy
+    (`observe` constructs the instantiated template with `ptgen.build_reusing_dicts` and overwrites the dicts after
+    the last construction).  The copies are sequenced / repeated / reversed; every copy has to report its windows
+    under the names (and with the parameters) it was constructed with."""
+    import copy
+    g = ptgen.Gen(rng, 2, measure_p=0.95)
+    env, values = g.params()
+    body = ptgen.strip(g.atom(['A'], env, None, None, allow_multi=rng.random() < 0.3))
+    pt = ptgen.build(body)
+    if not pt.measurement_names:
+        body = {'k': 'seq', 'subs': [body], 'meas': [['m', '0', '0.5'], ['n', '0.25', 'w0']], 'cons': []}
+        pt = ptgen.build(body)
+    names = sorted(pt.measurement_names)
+    mapped = rng.sample(names, rng.randrange(1, len(names) + 1))
+    pnames = sorted(p for p in pt.parameter_names if p in env.wins or p in env.volts)
+    p = rng.choice(pnames) if pnames and rng.random() < 0.6 else None
+    cm = rng.choice([None, None, [['A', 'A']], [['A', 'X']]])
+    parts = []
+    for i in range(rng.choice([2, 2, 3])):
+        parts.append({'k': 'map', 'body': copy.deepcopy(body),
+                      'pm': [[p, '%s + %s' % (p, ptgen.fstr(F(i, 4)))]] if p else None,
+                      'mm': [[n, rng.choice(['shot%d' % i, 'shot%d' % i, n, 'x'])] for n in mapped],
+                      'cm': copy.deepcopy(cm)})
+    spec = {'k': 'seq', 'subs': parts, 'meas': g.measurements(env, None), 'cons': []}
+    wrap = rng.randrange(4)
+    if wrap == 1:
+        spec = {'k': 'rep', 'body': spec, 'count': rng.choice(['2', 'n0 + 1']), 'meas': [['p', '0', '0.25']], 'cons': []}
+    elif wrap == 2:
+        spec = {'k': 'rev', 'body': spec}
+    elif wrap == 3:
+        spec = parts[0]
+    full = ptgen.build(spec)
+    return {'spec': spec, 'params': {k: v for k, v in values.items() if k in full.parameter_names}, 'cm': {}, 'mm': None,
+            'single': [], 'reuse': True}
 
 
 def helper_case(rng: random.Random):
@@ -124,7 +164,10 @@ def run(ctx: core.Ctx):
                 'including -> None, repetition counts 0/1/n, empty iteration ranges, dropped channels (so that nodes turn '
                 'out empty), reversal around repetitions and iterations; a family of composites that turn out empty while '
                 'carrying windows, next to non-empty siblings; all nestings of depth <= 3 over two atoms; a '
-                'malformed stream; the helper RepetitionPT.with_repetition against its explicit nesting. Windows are '
+                'malformed stream; scalar arithmetic around scalar arithmetic / mappings inside atomic composites; a quarter of '
+                'the random cases and a dedicated family construct their MappingPTs from caller-owned mapping dicts that '
+                'are re-used for the next construction and overwritten afterwards (the model sees the template as '
+                'written); integer channel ids; the helper RepetitionPT.with_repetition against its explicit nesting. Windows are '
                 'compared as multisets of exact rationals. Non-trivial = a program is produced from a tree with more '
                 'than one node')
     ctx.assumptions = [
@@ -144,6 +187,9 @@ def run(ctx: core.Ctx):
     base = ctx.fork('empty').getrandbits(48)
     descs += [ck.desc(family='custom', make=empty_case, seed=base + i, label='empty-composites')
               for i in range(ctx.n(150, 3000))]
+    base = ctx.fork('reuse').getrandbits(48)
+    descs += [ck.desc(family='custom', make=reuse_case, seed=base + i, label='reused-mapping-dicts')
+              for i in range(ctx.n(120, 2500))]
     base = ctx.fork('malformed').getrandbits(48)
     descs += [ck.desc(family='malformed', seed=base + i) for i in range(ctx.n(150, 3000))]
     ck.run_batch(descs)
